@@ -911,3 +911,23 @@ Proof.
     default_config, 20, (Some EmptyString).
   eexists. split; [vm_compute; reflexivity|]. rewrite <- all_wf_b_iff. vm_compute. discriminate.
 Qed.
+
+(* ------------------------------------------------------------------ the acceptor used by the correspondence *)
+(* whatever eviction the implementation chose, if the acceptor accepts it the peer bound holds *)
+Lemma acceptor_bounded cfg now tol pre post :
+  remove_oldest_ok cfg now tol pre post = true -> len post <= max_peers cfg.
+Proof.
+  unfold remove_oldest_ok. intros H. apply andb_true_iff in H. destruct H as [H _].
+  apply andb_true_iff in H. destruct H as [_ H]. apply N.eqb_eq in H. lia.
+Qed.
+
+(* the model's own choice (last maximum in list order) is one the acceptor accepts *)
+Example acceptor_accepts_model_choice :
+  let pre := map (fun pl => (fst pl, truncate_addrs ex_cfg (snd pl))) (clean_peers ex_cfg 1000 ex_cache) in
+  forallb (fun mp => remove_oldest_ok {| max_peers := mp; max_addrs := 2; expiry := 100 |} 1000 0 pre
+                       (try_remove_oldest {| max_peers := mp; max_addrs := 2; expiry := 100 |} 1000 pre))
+          [0; 1; 2; 3] = true /\
+  (* and it rejects evicting the newer peer *)
+  remove_oldest_ok {| max_peers := 1; max_addrs := 2; expiry := 100 |} 1000 0 pre
+    [(pA, [mk 1 1 pA 5 1 950; mk 4 1 pA 2 2 960])] = false.
+Proof. vm_compute. split; reflexivity. Qed.
